@@ -25,6 +25,48 @@ def h01_revive(S, backend="redis", steps=6):
     run_history(S, backend, steps=steps, pre=1, ops_allowed=("consume", "nack", "reject", "requeue"))
 
 
+def h01_redis_finish(S):
+    """Redis consumer with its background prefetch: start, let it work for a while, maybe take one message, finish."""
+    import asyncio
+    from fractions import Fraction
+    from fakes import redis as fr
+    from repid.data._key import RoutingKey
+    import repid.data._parameters as P
+    from harness.common import run_async, place_names
+
+    buffer_size = S.pick("max_unacked_messages", 2) + 1
+    backlog = S.pick("backlog", 3) + 2
+    take_one = S.flag("caller_takes_one_message")
+    t = S.real("finish_after_s", 0, Fraction(30, 1000))
+    out = {}
+
+    async def main(loop):
+        srv = fr.FakeServer()
+        srv.latency = lambda client: Fraction(1, 1000)          # every round trip takes 1 ms
+        br = fr.mk_broker(srv)
+        for i in range(backlog):
+            await br.enqueue(RoutingKey(topic="job", queue="default", id_=f"m{i}"), "p", P.Parameters(timestamp=P.datetime.now()))
+        cons = br.get_consumer("default", ["job"], buffer_size)
+        cons.POLLING_WAIT = Fraction(1, 1000)
+        await cons.start()
+        held = None
+        if take_one:
+            held = (await asyncio.wait_for(cons.consume(), timeout=5))[0].id_
+        await asyncio.sleep(t)
+        await cons.finish()
+        await asyncio.sleep(Fraction(1, 2))
+        out["held"] = held
+        out["places"] = {i: sorted(p[0] for p in v) for i, v in fr.redis_places(srv).items()}
+
+    run_async(main)
+    S.cover("finished")
+    for i in range(backlog):
+        mid = f"m{i}"
+        want = ["processing"] if mid == out["held"] else ["waiting"]
+        S.check("every-message-in-exactly-its-place", out["places"].get(mid, []) == want,
+                info=f"after finish(): {mid} is in {out['places'].get(mid, [])}, expected {want} (buffer {buffer_size}, backlog {backlog})")
+
+
 _B = {"operations": "enqueue (immediate / due in 2 s), consume through each category, ack, nack, reject, requeue (immediate / delayed), clock advance 3 s, consumer finish",
       "clients": "well-behaved: terminal actions only on held messages, fresh ids", "queues/topics": "one queue, one topic, equal priority"}
 
@@ -48,6 +90,12 @@ HARNESSES = [
             stubs=["fake AMQP server (fakes/amqp.py): routing, DLX as declared by repid, expiry exactly at TTL; priorities not modelled"],
             outside=["RabbitMQ server semantics beyond the stub"]),
 ]
+HARNESSES.append(Harness(
+    name="H01-redis-finish", scenario=h01_redis_finish, workers=8,
+    bounds={"consumer": "Redis consumer with background prefetch, buffer of 1 or 2, backlog 2..4, 1 ms round trips", "caller": "takes one message or none",
+            "finish()": "after any real time in [0, 30 ms]"},
+    functions=["connections/redis/consumer.py:_RedisConsumer.finish", "connections/redis/consumer.py:_RedisConsumer.backgroud_consume"],
+    covers=["finished"], stubs=["fake Redis server with 1 ms latency"]))
 for _be in ("mem", "redis", "rabbit"):
     HARNESSES.append(Harness(
         name=f"H01-{_be}-revive", scenario=h01_revive, workers=16, budget_s=900,
